@@ -157,5 +157,34 @@ META["C14"] = {
     "technique": "Lean 4 slot-conservation / exclusivity invariants over queue and hub models; contention stress as exploration",
 }
 
+META["C05"] = {
+    "text": "Proof: for every acceptance predicate and every sequence of channel operations and incoming terms (any sender, any order, "
+            "both roles, simultaneous starts, rekeys, expiry), the channel's remote key was accepted by the predicate, the current "
+            "and previous sessions are with exactly that key, application data is delivered/encrypted only on such sessions, the "
+            "remote key never changes once set, and a handshake presenting another key leaves the current session in place. Real "
+            "channels with all/none/only:k predicates are driven in lock step and by the oracle each run.",
+    "design_ref": "DESIGN.md section 5 C05", "note": _KE_NOTE,
+    "technique": "Lean 4 inductive channel invariant over arbitrary operation sequences + lock-step differential correspondence",
+}
+META["C07"] = {
+    "text": "Proof (partial, see assumptions): slot discipline (previous/current ready, prospective not ready) in every reachable state, "
+            "make-before-break for rekey/handshake/incoming terms, keep-alive soundness (authenticated data through the current "
+            "session refreshes lastReceived; a session within its keep-alive and reject times is not torn down), convergence of "
+            "simultaneous initiation, and establishment within three reliable round trips from fresh channels and after a peer "
+            "restart (after establishment and after the first InitHello). Wall-clock bounds rest on timers firing when due and "
+            "are explored by the real-time oracle cases.",
+    "design_ref": "DESIGN.md section 5 C07 and section 6", "note": _KE_NOTE,
+    "technique": "Lean 4 channel invariants + scenario theorems with symbolic parameters; lock-step correspondence and real-time oracle",
+}
+META["C08"] = {
+    "text": "Proof: the packet-facing parsers and reassemblers of the repository (string/varint demultiplexers, fragswarm parse and "
+            "aggregator, mbapp header/collector/bitmap, quicswarm frame buffer, p2pke message and InitHello framing) are re-written "
+            "with Go's checked slice/index semantics and proved never to fault and to agree with the total models, for every input "
+            "and every history; a rejected datagram leaves reassembly state untouched. Every correspondence stream doubles as a "
+            "crash detector (panic = observation `fault`). Parsers outside the repository are fuzzed only.",
+    "design_ref": "DESIGN.md section 5 C08", "note": _NOTE + " encoding/asn1, protobuf, flynn/noise, quic-go and x/crypto/ssh internals are not modelled.",
+    "technique": "Lean 4 no-fault theorems over checked (Except) re-writings of the parsers + structured malformed-input correspondence in all streams",
+}
+
 _PENDING = "check under construction in this build round; will be claimed once its model, theorems and correspondence stream pass on the unchanged tree"
 NOT_APPLICABLE = {("C%02d" % i): _PENDING for i in range(1, 21)}
